@@ -58,6 +58,8 @@ def gen_flow(rng, tier):
             "scale": rng.choice([0.5, 1.5, 3.0, 4.0]), "shift": rng.choice([0.0, 0.5, -2.0, 3.0]),
             "special": rng.random() < 0.3, "max_batches": 0, "npop": rng.choice([1, 2]),
             "max_samples": rng.choice([None, None, 10, 30]) if acc else None, "cls": "flow"})
+        if rng.random() < 0.2:
+            augment(rng, cases[-1])
         radius_sequence(rng, cases[-1])
     n_real = 8 if tier == "quick" else 60
     for i in range(n_real):
@@ -71,11 +73,23 @@ def gen_flow(rng, tier):
             "radius": rng.choice([1.5, 2.5]), "expansion": rng.choice([None, 4.0]),
             "flow": "trained" if i % 4 == 1 else "real", "scale": 1.0, "shift": 0.0, "special": False,
             "max_batches": 0, "npop": 2, "max_samples": None, "cls": cls})
+        if cls == "augmented":
+            augment(rng, cases[-1], p_marg=0.7)
         radius_sequence(rng, cases[-1])
     for c in cases:
         if not c["max_batches"]:
             c["max_batches"] = 40 + 300 // c["drawsize"]
     return cases
+
+
+def augment(rng, c, p_marg=0.6):
+    """AugmentedFlowProposal: extra Gaussian dimensions, optionally marginalised over n_marg fresh draws per point."""
+    c["cls"] = "augmented"
+    c["augment_dims"] = rng.choice([1, 1, 2])
+    c["marg"] = rng.random() < p_marg
+    c["n_marg"] = rng.choice([1, 2, 3, 5, 8])
+    if c["marg"]:
+        c["drawsize"] = max(c["drawsize"], 2)
 
 
 def radius_sequence(rng, c):
@@ -332,7 +346,7 @@ def run(chk):
                    "correspondence", bad == [], e or "mismatch: " + "; ".join(lits[i] for i in (bad or [])[:3]))
         chk.oracle_validations += len(lits)
     # ---- flow populations ---------------------------------------------------------------------------------
-    plain, accl, drawl, same = [], [], [], []
+    plain, accl, drawl, same, margl = [], [], [], [], []
     for c, r in zip(job["flow"], res["flow"]):
         chk.evaluations += 1
         if "child_error" in r or "config_error" in r:
@@ -348,6 +362,23 @@ def run(chk):
             if pop.get("dup"):
                 chk.count("flow:skipped-duplicate-candidates")
                 continue
+            for mi, mr in enumerate(pop.get("marg", [])):
+                if mr.get("unrecorded"):
+                    chk.count("flow:marginalise:draws-not-recorded")
+                    continue
+                chk.count(f"flow:marginalise:n_marg={mr['n_marg']}")
+                if mr["n_points"] > 1 and mr["n_marg"] > 1 and mr["spread"] > 1e-6:
+                    chk.nontriv((c["seed"], "marg"))
+                if not mr["same_finite"] or mr["max_err"] > 1e-8 * (1 + mr["scale"]):
+                    chk.fail("C09:marginalised-density-not-own-point",
+                             f"_marginalise_augment: the value returned for a point differs by {mr['max_err']:.3g} from "
+                             f"logsumexp over the {mr['n_marg']} augment draws of THAT point - log n_marg "
+                             f"({mr['n_points']} points in the batch; the weights prior / q of populate use it)",
+                             {"kind": "flow", "case": c, "population": pi})
+                if mi < 4 and all(fin(t) for t in mr["terms"]) and all(fin(o) for o in mr["outs"]):
+                    scale = max([1.0] + [abs(float.fromhex(t)) for t in mr["terms"]])
+                    margl.append(cT(cN(mr["n_marg"]), cL(map(cE, mr["terms"])), cE(mr["ln_n"]),
+                                    cE((scale * 2.0 ** -20).hex()), cL(map(cE, mr["outs"]))))
             cands = [x for b in pop["batches"] for x in b["cands"]]
             support = {x[0]: (x[3] and fin(x[4])) for x in cands}
             nonfin = any(not fin(x[1]) for x in cands)
@@ -553,6 +584,8 @@ def run(chk):
         ("plain", "chk_plain", plain, "FlowProposal.populate (plain): ids of self.x = model flow_populate on the recorded oracle values, "
                                       "same outcome (pool / IndexError / still looping)"),
         ("acc", "chk_acc", accl, "FlowProposal.populate (accumulate_weights): ids of self.x = model acc_populate"),
+        ("marg", "chk_marg", margl, "AugmentedFlowProposal._marginalise_augment: every returned value is enclosed by the maximum "
+                                    "of ITS OWN block of recomputed terms (model blocks; logsumexp is an oracle)"),
         ("rej", "chk_rej", rejl, "RejectionProposal.populate: pool = model new_points ; rej_populate"),
         ("newp", "chk_newp", newl, "Model.new_point / AnalyticProposal.populate / populate_live_points = model new_points"),
         ("insdraw", "chk_insdraw", insl, "ImportanceFlowProposal.draw = model ins_draw"),
